@@ -155,7 +155,16 @@ def foreign_synth_decodes(H, cname):
             dflt = ctl.default
             raws.append(dflt.value)
             expect[name] = dflt
-    chunks = [(b"SSYN", b""), (b"VERS", F.enc_version((2, 1, 2, 1)))] + _module_chunks(d, cls.mtype, False, raws)
+    # controller MIDI bindings: one 8-byte record per controller value present, symbolic numbers
+    from rv.cmidmap import MidiMessageType, Slope
+
+    binds = []
+    for i, name in enumerate(attached[:k]):
+        mt = [MidiMessageType.unset, MidiMessageType.control_change, MidiMessageType.rpn][i % 3]
+        sl = [Slope.linear, Slope.s_curve, Slope.toggle][i % 3]
+        binds.append((mt, H.int(f"cm.{name}.ch", 0, 255), sl, H.int(f"cm.{name}.par", 0, 0xFFFF)))
+    cmid = rw.join([F.enc_cmid(mt.value, ch, sl.value, par) for mt, ch, sl, par in binds]) if binds else None
+    chunks = [(b"SSYN", b""), (b"VERS", F.enc_version((2, 1, 2, 1)))] + _module_chunks(d, cls.mtype, False, raws, cmid)
     positions = sorted({1, 2, len(chunks) // 2, len(chunks) - 1}) if tier == "quick" else list(range(1, len(chunks)))
     pos = H.choice("unknown_chunk_at", [None] + positions)
     if pos is not None:
@@ -172,6 +181,12 @@ def foreign_synth_decodes(H, cname):
             H.check(f"cval[{name}].default_kept", H.eq(m.controller_values[name], fresh.controller_values[name]))
     for name in cls.options:
         H.check(f"option[{name}].default_kept", H.eq(m.option_values[name], fresh.option_values[name]))
+    for (mt, ch, sl, par), name in zip(binds, attached[:k]):
+        b = m.controller_midi_maps[name]
+        H.check(f"cmid[{name}].decoded", H.and_(b.message_type == mt, H.eq(b.channel, ch), b.slope == sl, H.eq(b.message_parameter, par)))
+    for name in attached[k:]:
+        b = m.controller_midi_maps[name]
+        H.check(f"cmid[{name}].default_kept", b.message_type == MidiMessageType.unset and b.channel == 0)
     H.cover("reached")
 
 
@@ -294,11 +309,13 @@ def legacy_module_high_byte(H, _):
     """A pattern cell's module number: files stamped with a version below 1.9.5.0 get the high byte
     cleared, all others keep the 16-bit value; version bytes and the cell are symbolic."""
     ver = tuple(H.int(f"ver{i}", 0, 255) for i in range(4))
+    bver = tuple(H.int(f"bver{i}", 0, 255) for i in range(4))  # the based-on stamp must not matter
+    with_bver = H.choice("BVER", ["present", "absent"])
     note, vel, ctl, val = H.int("note", 0, 255), H.int("vel", 0, 129), H.int("ctl", 0, 0xFFFF), H.int("val", 0, 0xFFFF)
     mod = H.int("module", 0, 0xFFFF)
     d0 = {"flags": 0x43, "name": "Output", "finetune": 0, "relnote": 0, "x": 512, "y": 512, "layer": 0, "scale": 256,
           "vis": 0xC0101, "color": (255, 255, 255), "always": False, "channel": 0, "mic": 0, "mib": -1, "mip": -1}
-    chunks = [(b"SVOX", b""), (b"VERS", F.enc_version(ver)),
+    chunks = [(b"SVOX", b""), (b"VERS", F.enc_version(ver))] + ([(b"BVER", F.enc_version(bver))] if with_bver == "present" else []) + [
               (b"PDTA", F.enc_note(note, vel, mod, ctl, val)), (b"PCHN", F.enc_u32(1)), (b"PLIN", F.enc_u32(1)), (b"PEND", b"")]
     chunks += _module_chunks(d0, "Output", True, [])
     p = rw.read_back(H, _stream(chunks))
@@ -310,6 +327,7 @@ def legacy_module_high_byte(H, _):
     H.check("module_number", cell.module == H.ite(old, mod % 256, mod))
     H.check("other_cell_fields", H.eq([cell.note, cell.vel, cell.ctl, cell.val], [note, vel, ctl, val]))
     H.check("loaded_version", H.eq(tuple(p.loaded_sunvox_version), ver))
+    H.check("based_on_version", H.eq(tuple(p.based_on_version), bver if with_bver == "present" else (1, 7, 0, 0)))
     H.cover("reached")
 
 
